@@ -205,7 +205,12 @@ type Terminal struct {
 	Modes            map[int]bool
 	KeypadApp        bool
 	KittyStack       []int // pushed flag values (top = current)
-	KittyFlags       int   // current flags (main screen)
+	KittyFlags       int   // current flags (of the active screen)
+	// the keyboard mode stack and flags of the screen that is not active
+	// (kitty keyboard protocol: "the main and alternate screens must
+	// maintain their own, independent, keyboard mode stacks")
+	kittyStackOther []int
+	kittyFlagsOther int
 	PointerShape     string
 	AppID            string
 	Title            string
@@ -1370,6 +1375,7 @@ func (t *Terminal) altScreen(on bool) {
 		if !t.AltActive {
 			t.cur = t.alt
 			t.AltActive = true
+			t.swapKitty()
 		}
 		for r := range t.alt.cells {
 			for c := range t.alt.cells[r] {
@@ -1381,8 +1387,14 @@ func (t *Terminal) altScreen(on bool) {
 	if t.AltActive {
 		t.cur = t.prim
 		t.AltActive = false
+		t.swapKitty()
 	}
 	t.restoreCursor()
+}
+
+func (t *Terminal) swapKitty() {
+	t.KittyStack, t.kittyStackOther = t.kittyStackOther, t.KittyStack
+	t.KittyFlags, t.kittyFlagsOther = t.kittyFlagsOther, t.KittyFlags
 }
 
 func (t *Terminal) eraseDisplay(mode int) {
@@ -1961,6 +1973,7 @@ func (t *Terminal) ModeTable() map[string]string {
 	}
 	m["keypad-application"] = fmt.Sprint(t.KeypadApp)
 	m["kitty-keyboard"] = fmt.Sprintf("flags=%d stack=%v", t.KittyFlags, t.KittyStack)
+	m["kitty-keyboard-of-the-other-screen"] = fmt.Sprintf("flags=%d stack=%v", t.kittyFlagsOther, t.kittyStackOther)
 	m["cursor-visible"] = fmt.Sprint(t.CursorVisible)
 	m["cursor-shape"] = fmt.Sprint(t.CursorShape)
 	m["pointer-shape"] = t.PointerShape
